@@ -642,7 +642,9 @@ func runStoreHistory(root string, job jobSpec) *histResult {
 	}
 
 	canRemove := b.Caps.Remove
-	canRemoveShared := canRemove && job.Mode != "ackearly"
+	// cachemiss: the shared blobs are never removed either - the races of proxycache's receive/fetch/remove on
+	// one blob are the business of the random proxycache plans; here only the owners remove, their own blobs
+	canRemoveShared := canRemove && job.Mode != "ackearly" && job.Mode != "cachemiss"
 	nClients := job.Clients
 	calls := make([][]*call, nClients+1)
 
